@@ -172,13 +172,18 @@ EvObserveCall == /\ IsEv("ObserveCall") /\ obsSt[Ev.tag] = "none"
                  /\ obsOf' = [obsOf EXCEPT ![Ev.tag] = Ev.s] /\ obsIdx' = [obsIdx EXCEPT ![Ev.tag] = l]
                  /\ obsSt' = [obsSt EXCEPT ![Ev.tag] = "calling"] /\ nObs' = nObs + 1
                  /\ UNCHANGED <<obsRetAt, dataTag, dataPend, dataPre, stage, seen, mustObs, annAtClose>> /\ C03U /\ C04U /\ Keep
+\* (an observer registered from inside the global close callback of its session is registered before the observer phase)
 EvObserveRet == /\ IsEv("ObserveRet") /\ obsSt[Ev.tag] = "calling"
                 /\ obsSt' = [obsSt EXCEPT ![Ev.tag] = "reg"] /\ obsRetAt' = [obsRetAt EXCEPT ![Ev.tag] = l]
-                /\ UNCHANGED <<obsOf, obsIdx, nObs, dataTag, dataPend, dataPre, stage, seen, mustObs, annAtClose>> /\ C03U /\ C04U /\ Keep
+                /\ mustObs' = IF Ev.t = "gcb" /\ stage[Ev.s] = "global" THEN [mustObs EXCEPT ![Ev.s] = @ \cup {Ev.tag}] ELSE mustObs
+                /\ UNCHANGED <<obsOf, obsIdx, nObs, dataTag, dataPend, dataPre, stage, seen, annAtClose>> /\ C03U /\ C04U /\ Keep
 EvUnobserveCall == /\ IsEv("UnobserveCall") /\ obsSt' = [obsSt EXCEPT ![Ev.tag] = IF @ = "reg" THEN "going" ELSE @]
                    /\ UNCHANGED <<obsOf, obsIdx, obsRetAt, nObs, dataTag, dataPend, dataPre, stage, seen, mustObs, annAtClose>> /\ C03U /\ C04U /\ Keep
 \* an unobserve that returns FALSE removed nothing (the close had already taken the observer list): still registered
+\* ("global close callback runs FIRST, then each STILL-registered observer": an unobserve made from inside the global close
+\*  callback - thread gcb - on an observer of the closing session that is registered must succeed)
 EvUnobserveRet == /\ IsEv("UnobserveRet") /\ obsSt' = [obsSt EXCEPT ![Ev.tag] = IF @ = "going" THEN (IF Ev.ok THEN "gone" ELSE "reg") ELSE @]
+                  /\ (Ev.t = "gcb" /\ obsSt[Ev.tag] = "going" /\ stage[obsOf[Ev.tag]] = "global") => Ev.ok
                   /\ UNCHANGED <<obsOf, obsIdx, obsRetAt, nObs, dataTag, dataPend, dataPre, stage, seen, mustObs, annAtClose>> /\ C03U /\ C04U /\ Keep
 EvSetDataCall == /\ IsEv("SetDataCall") /\ dataPend' = [dataPend EXCEPT ![Ev.s] = @ \cup {Ev.tag}]
                  /\ UNCHANGED <<obsOf, obsIdx, obsRetAt, obsSt, nObs, dataTag, dataPre, stage, seen, mustObs, annAtClose>> /\ C03U /\ C04U /\ Keep
